@@ -376,10 +376,12 @@ class _Exporter:
                             )
                         self.skipped_initializers[init_py_name] = init
                         continue
+                # _translate_node translates the output name (translating it here too would
+                # rename it twice when rename=True).
                 node = onnx.helper.make_node(  # noqa: TID251
                     "Constant",
                     [],
-                    [self._translate_onnx_var(init.name)],  # type: ignore[list-item]
+                    [init.name],
                     value=init,
                 )
                 pyinit = self._translate_node(node, opsets, indent=indent)
